@@ -1,12 +1,14 @@
 """C02 — Model edits do exactly what they document; cross-references stay consistent."""
-from contracts import c15_dictlist, misc_small  # noqa
+from contracts import c15_dictlist, misc_small, c02_xref  # noqa
 from props._generic import run_property, replay_with_driver
 
 LEVEL = "other"
 # the DictList operations through which every model edit maintains "identifiers are unique and every listed object is the one
 # found by looking up its identifier" (contracts shared with C15), plus Reaction.copy's pointer discipline used by add_reactions
 KEYS = ["DictList." + k for k in ("append extend _extend_nocheck remove __isub__ pop _generate_index _replace_on_id get_by_id "
-                                  "has_id index __contains__ union __iadd__ add").split()] + ["Reaction.copy"]
+                                  "has_id index __contains__ union __iadd__ add").split()] + [
+    "Reaction.copy", "Reaction._associate_gene", "Reaction._dissociate_gene", "Group.add_members", "Group.remove_members",
+    "Model.get_associated_groups"]
 
 
 def run(rep):
@@ -15,7 +17,10 @@ def run(rep):
         "identifier` hold because every model edit changes model.reactions/metabolites/genes/groups only through the DictList "
         "operations listed here, each proved (C15 contracts, unbounded) to preserve the representation invariant and to produce "
         "exactly the specified sequence, raising cases leaving the list unchanged; Reaction.copy (used when reactions of another "
-        "model are added) is proved to leave all model pointers of its operand as found. The documented effect of each public "
+        "model are added) is proved to leave all model pointers of its operand as found; the primitive cross-reference updates "
+        "Reaction._associate_gene/_dissociate_gene are proved to update both directions (reaction lists gene iff gene lists reaction "
+        "for the pair, nothing else touched), Group.add_members/remove_members to add/remove exactly the listed members of exactly "
+        "that group, Model.get_associated_groups to return exactly the groups containing the element, in order. The documented effect of each public "
         "editing operation on stoichiometry, gene sets, back-references and groups (add_reactions re-pointing, add_metabolites "
         "combine/replace, update_genes_from_gpr, remove_* with orphans, remove_genes/rename_genes, add_boundary, merge) is NOT "
         "proved - those functions mix sympy/optlang calls, string parsing and nested loops outside the supported subset: bounded "
